@@ -87,7 +87,7 @@ func PlainUser(t *rapid.T, label string) string {
 }
 
 // RecipientClass names the classes of bank recipients the generators draw from.
-var RecipientClasses = []string{"plain", "plain-upper", "orbiter", "orbiter-upper", "dust", "blacklisted", "module-warp", "fresh", "long32", "short2"}
+var RecipientClasses = []string{"plain", "plain-upper", "orbiter", "orbiter-upper", "dust", "blacklisted", "module-warp", "fresh", "long32", "short2", "blocked-pool"}
 
 func Recipient(t *rapid.T, label string, classes []string) (addr string, class string) {
 	class = pick(t, label+"/class", classes)
@@ -108,6 +108,9 @@ func Recipient(t *rapid.T, label string, classes []string) (addr string, class s
 		addr = world.WarpAddr.String()
 	case "fresh":
 		addr = world.Addr(fmt.Sprintf("fresh-%d", rapid.IntRange(0, 3).Draw(t, label+"/n"))).String()
+	case "blocked-pool":
+		// another account the bank refuses to credit (blocked in the application's configuration)
+		addr = world.BlockedPoolAddr.String()
 	case "long32":
 		// a 32-byte account address, as contracts, interchain accounts and derived module
 		// accounts have
